@@ -312,6 +312,12 @@ func ParseContractFile(path, pkgPath string) (*ContractFile, error) {
 			if w1 != "call" || w3 != "assert" || err != nil {
 				return nil, fail(fmt.Errorf("expected: at call N assert <expr> | at call N snapshot NAME"))
 			}
+			var aprops []string
+			for strings.HasPrefix(strings.TrimSpace(r3), "@") {
+				w1, r1 := splitWord(strings.TrimSpace(r3))
+				aprops = append(aprops, strings.TrimPrefix(w1, "@"))
+				r3 = r1
+			}
 			e, err := ParseSpecExpr(r3)
 			if err != nil {
 				return nil, fail(err)
@@ -319,7 +325,7 @@ func ParseContractFile(path, pkgPath string) (*ContractFile, error) {
 			if cur.Asserts == nil {
 				cur.Asserts = map[int][]Clause{}
 			}
-			cur.Asserts[n] = append(cur.Asserts[n], Clause{Text: r3, E: e, Line: rc.line, File: path})
+			cur.Asserts[n] = append(cur.Asserts[n], Clause{Text: r3, E: e, Line: rc.line, File: path, Props: aprops})
 		case "loop":
 			if cur == nil {
 				return nil, fail(fmt.Errorf("loop outside func"))
